@@ -277,9 +277,11 @@ def r32p_locations(repo, sink):
         n += 1
         why = None
         for loc, valid in ((good, True), (bad, False)):
-            me = Obj(cls=k, label=k.name)
-            me.fields.update(valid_locations=(good, Sym("enum", "Location", "POINTS")), name=k.name, logger=Logger(label="logger"))
+            from ..absbase import seed_from_init
             it = _LocInterp(repo)
+            me = Obj(cls=k, label=k.name)
+            seed_from_init(it, k, me, {})
+            me.fields.update(valid_locations=(good, Sym("enum", "Location", "POINTS")), name=k.name, logger=Logger(label="logger"))
             try:
                 it.run(st, [loc], self_obj=me)
                 raised = None
@@ -307,8 +309,73 @@ def r32p_locations(repo, sink):
     sink.floor("R32", "data_location setters", n, 2)
 
 
+# ---------------------------------------------------------------- copies and cached shapes
+def r32p_copy_independent(repo, sink):
+    """A grid and its (shallow) copy answer data_shape / data_size for their own data location,
+    whatever was read or set on the other one in between."""
+    from ..absbase import seed_from_init
+    from .grid import _SibInterp
+
+    class _I(_SibInterp):
+        def call_hook(self, fv, args, kwargs, node, mod):
+            if isinstance(fv, Closure) and getattr(fv.func, "name", "") == "get_enum_value":
+                return args[0]
+            return super().call_hook(fv, args, kwargs, node, mod)
+
+    cells, points = Sym("enum", "Location", "CELLS"), Sym("enum", "Location", "POINTS")
+    n = 0
+    for c in repo.subclasses(repo.cls("StructuredGrid")):
+        st = repo.resolve(c, "data_location", "setter")
+        gs, gz = repo.resolve(c, "data_shape", "getter"), repo.resolve(c, "data_size", "getter")
+        if st is None or gs is None or repo.is_abstract(c) or c.name != "RectilinearGrid":
+            continue
+        n += 1
+        dims = (5, 4)
+        want = {"CELLS": ((4, 3), 12), "POINTS": ((5, 4), 20)}
+
+        def fresh():
+            it = _I(repo)
+            g = Obj(cls=c, label="grid")
+            seed_from_init(it, c, g, {})
+            g.fields.update(dims=dims, dim=2, axes_reversed=False, axes_increase=[True, True], order="C", name="g",
+                            valid_locations=(cells, points), axes=[Sym("ax", 0), Sym("ax", 1)])
+            it.run(st, [cells], self_obj=g)
+            return it, g
+
+        def read(it, g):
+            return (tuple(it.run(gs, [], self_obj=g)), it.run(gz, [], self_obj=g))
+
+        worst = None
+        try:
+            for scenario in ("copy-then-change-copy", "copy-then-change-original", "read-copy-change-copy-read-original"):
+                it, g = fresh()
+                if scenario != "copy-then-change-original":
+                    read(it, g)
+                cp = Obj(cls=c, label="copy")
+                cp.fields.update(g.fields)  # shallow copy: attribute values are shared objects
+                changed, other = (g, cp) if scenario == "copy-then-change-original" else (cp, g)
+                it.run(st, [points], self_obj=changed)
+                first = read(it, changed)
+                second = read(it, other)
+                third = read(it, changed)
+                if first != want["POINTS"] or third != want["POINTS"]:
+                    worst = worst or f"{scenario}: the grid switched to POINTS reports shape/size {first} then {third}, must be {want['POINTS']}"
+                elif second != want["CELLS"]:
+                    worst = worst or (f"{scenario}: after the {'original' if changed is g else 'copy'} was switched to POINTS, the "
+                                      f"{'copy' if changed is g else 'original'} (still CELLS) reports shape/size {second}, must be {want['CELLS']}: "
+                                      "cached shapes are shared between a grid and its shallow copy")
+        except Raised as r:
+            worst = worst or f"raises {r.name}"
+        except (AnalysisError, Undecided) as exc:
+            sink.unknown("R31", f"copy-independent:{c.name}", gs, f"outside vocabulary: {exc}")
+            continue
+        sink.check(worst is None, "R31", f"copy-independent:{c.name}", gs,
+                   ok="a grid and its shallow copy report data_shape / data_size of their own data location", bad=worst or "")
+    sink.floor("R31", "structured grid classes with cached shapes", n, 1)
+
+
 def r32p(repo, sink):
-    for fn in (r32p_gen_points, r32p_order_map, r32p_casts, r32p_locations):
+    for fn in (r32p_gen_points, r32p_order_map, r32p_casts, r32p_locations, r32p_copy_independent):
         try:
             fn(repo, sink)
         except (AnalysisError, Undecided) as exc:
